@@ -63,7 +63,7 @@ def corpus(run):
             specs.append(build_enum(r0, "E%d" % k, n, mask, kinds=kinds))
             k += 1
     # generics x a few masks
-    for g in ("T", "Tw", "TU", "N", "TN"):
+    for g in ("T", "Tw", "TU", "N", "TN", "NT", "Tnd"):
         for n in (1, 3, 5):
             for mask in ([False] * n, [True] + [False] * (n - 1), [False] * (n - 1) + [True], [i % 2 == 1 for i in range(n)]):
                 specs.append(build_enum(r0, "E%d" % k, n, mask, generics=g))
@@ -73,7 +73,7 @@ def corpus(run):
     for _ in range(3000 if thorough else 600):
         n = r.choice([0, 1, 2, 3, 4, 5, 6, 8, 12])
         mask = [r.random() < 0.3 for _ in range(n)]
-        specs.append(build_enum(r, "E%d" % k, n, mask, generics=r.choice([None, None, None, "T", "N", "TU", "Tdef", "TNdef", "Tw", "TwU"])))
+        specs.append(build_enum(r, "E%d" % k, n, mask, generics=r.choice([None, None, None, "T", "N", "TU", "Tdef", "TNdef", "Tw", "TwU", "TN", "NT", "Tnd"])))
         k += 1
     for n in ([64, 300] if thorough else [64]):
         mask = [r.random() < 0.2 for _ in range(n)]
